@@ -329,6 +329,21 @@ def eq_checks(d, m: Ref):
         bad.append(("eq-dict", as_dict))
     if not (d == same) or (d != same):
         bad.append(("eq-hhd-othercase", list(same.iteritems())))
+    # the same content given line by line (a name with several values appears several times: more entries than names)
+    lines = [(n.swapcase(), v) for n, v in m.lines()]
+    for label, rhs in (("eq-line-pairs-list", lines), ("eq-line-pairs-tuple", tuple(lines))):
+        if not (d == rhs) or (d != rhs):
+            bad.append((label, rhs))
+    # ... and as a plain dict whose keys differ in case only (two entries, one name)
+    twice = [n for n, _ in merged if len([1 for n2, _v in m.lines() if n2.lower() == n.lower()]) == 2 and n.lower() != n.upper()]
+    if twice:
+        n0 = twice[0]
+        vals = [v for n2, v in m.lines() if n2.lower() == n0.lower()]
+        cased = {n: v for n, v in merged if n.lower() != n0.lower()}
+        cased[n0.lower()] = vals[0]
+        cased[n0.upper()] = vals[1]
+        if len(cased) == len(merged) + 1 and (not (d == cased) or (d != cased)):
+            bad.append(("eq-dict-case-variant-keys", cased))
     other = dict(as_dict)
     other["zz"] = "1"
     if d == other or not (d != other):
